@@ -6,7 +6,7 @@ from nvlib import engine as E
 from nvlib.check import Prop
 
 BIG = 4294967296
-DELAYS = [(2147483647, 1), (2147483648, 1), (BIG - 1, 1), (BIG + 5, 1), (3 * BIG + 37, 1),
+DELAYS = [(1099511627779, 1), (2147483647, 1), (2147483648, 1), (BIG - 1, 1), (BIG + 5, 1), (3 * BIG + 37, 1),
           (-5, 1), (0, 2), (1, 8), (2, 6), (3, 4), (5, 3), (7, 2), (30, 2), (31, 4), (32, 8), (33, 4), (34, 1),
           (63, 2), (64, 5), (65, 2), (96, 2), (100, 1), (1000, 1)]
 ADV = [(0, 2), (1, 10), (2, 5), (3, 3), (5, 2), (31, 2), (32, 3), (33, 2), (64, 2), (70, 1), (200, 1)]
@@ -305,6 +305,15 @@ class C10(Prop):
                     "vapply o1 do_op reload", "adv 1", "sweep"], nobj=3)
         mk("call_out-by-destructed", ["vapply o1 do_op co,0,2,a", "vapply o1 do_op destco,o1", "vapply o2 set_script co:b destco,o2",
                                       "vapply o2 do_op co,1,1,b", "adv 1", "sweep", "adv 1", "sweep"])
+        # handles right below the end of the int range (the call_out after these is the open known finding)
+        mk("handle-last-int", ["setuniq 67108861", "vapply o1 do_op co,0,5,a", "vapply o1 do_op cofp,1,37,b", "vapply o1 do_op fh,a",
+                               "vapply o1 do_op fh,b", "vapply o1 do_op rmh,a", "vapply o1 do_op info", "setuniq 5", "adv 37", "sweep"])
+        mk("fp-bound-arg", ["vapply o1 do_op cofpb,2,3,a", "vapply o1 do_op co,2,3,b", "vapply o1 do_op fn,2", "vapply o1 do_op info",
+                            "vapply o1 do_op rmn,2", "vapply o1 do_op fh,a", "vapply o2 do_op cofpb,1,3,c", "vapply o1 do_op dest,o2",
+                            "vapply o1 do_op cofpb,0,40,d", "vapply o1 do_op reload", "adv 3", "sweep"])
+        mk("huge-delay", ["vapply o1 do_op co,0,1099511627779,a", "vapply o1 do_op cofp,1,1099511627811,b", "vapply o1 do_op fh,a",
+                          "vapply o1 do_op fn,0", "vapply o1 do_op info", "adv 3", "sweep", "vapply o1 do_op fh,b",
+                          "vapply o1 do_op rmh,b", "vapply o1 do_op rmn,0"])
         mk("reschedule-chain", ["vapply o1 set_script co:a co,0,1,b", "vapply o1 set_script co:b co,0,32,c",
                                 "vapply o1 set_script co:c co,0,31,d", "vapply o1 do_op co,0,1,a", "adv 1", "sweep",
                                 "adv 1", "sweep", "adv 32", "sweep", "adv 31", "sweep"])
@@ -323,6 +332,8 @@ class C10(Prop):
                     # four arguments instead of one (checked by the LPC callback itself)
                     k = "coa" if k == "co" else "coafp"
                     tag = "A%d" % st["tag"]
+                elif k == "cofp" and rng.chance(1, 3):
+                    k = "cofpb"                               # function pointer with a bound argument
                 st["tags"].setdefault(self_obj, []).append(tag)
                 d = rng.weighted(DELAYS)
                 f = rng.below(4)
@@ -372,6 +383,9 @@ class C10(Prop):
                 body.append("sweep")
         body += ["adv 40", "sweep"]
         head = ["clone o%d /c10/obj" % i for i in range(1, nobj + 1)]
+        if rng.chance(1, 4):
+            # large handle serials (verif hook); the last one leaves room for a few hundred call_outs below 2^31 / 32
+            head.append("setuniq %d" % rng.choice([1000, 1048576, 33554431, 67108000]))
         return E.Case(cid, head + body, {"origin": "generated"})
 
     def generate(self, rng, n, tier):
@@ -380,7 +394,7 @@ class C10(Prop):
     def histogram(self, cases, impl):
         """branch histogram of a run (generator audit): which mechanisms of call_out.c the cases reached"""
         keys = ["co", "cofp", "co_by_destructed", "co_with_player", "co_with_4_args", "destco_refusal_probes", "delay_lt1", "delay_lt_wheel", "delay_eq_wheel",
-                "delay_gt_wheel", "delay_ge_2^31", "fires", "fires_with_player", "fp_owner_destructed",
+                "delay_gt_wheel", "delay_ge_2^31", "setuniq", "fp_bound_arg", "fires", "fires_with_player", "fp_owner_destructed",
                 "rmh_hit", "rmh_miss", "rmn_hit", "rmn_miss", "fh_hit", "fh_miss", "fn_hit", "fn_miss",
                 "answer_negative_overdue", "answer_int_converted", "rmall", "reload", "usage", "usage_second_chunk",
                 "info", "info_rows", "info_fp_rows", "dest", "errors", "ticks", "ticks_spacing0", "ticks_backlog",
@@ -389,6 +403,8 @@ class C10(Prop):
         h = dict((k, 0) for k in keys)
         for c in cases:
             h["gop"] += sum(1 for l in c.lines if l.startswith("gop "))
+            h["setuniq"] += sum(1 for l in c.lines if l.startswith("setuniq "))
+            h["fp_bound_arg"] += sum(l.count("cofpb,") for l in c.lines)
             h["destco_refusal_probes"] += sum(l.count("destco,") for l in c.lines)
             last_tick = None
             in_cb = False
